@@ -53,7 +53,7 @@ func runFamily(r *Reporter, prop string, runs []famRun, configs func(c *ProgCase
 				sym := obs.Symptom()
 				desc := fmt.Sprintf("%s on %s: %s [%s]", oneLine(c.Prog), cfg, what, strings.Join(c.Tags, ","))
 				if id := matchFinding(prop, c.Tags, &cfg, sym); id != "" {
-					r.Known(id, desc)
+					r.KnownOn(id, cfg.String(), desc)
 					continue
 				}
 				if verbose {
